@@ -373,6 +373,9 @@ func TestC30SessionV1(t *testing.T) {
 		if intact && reasons == 1 && !verdict.obj {
 			labels = append(labels, "only-object")
 		}
+		for i := range labels {
+			labels[i] = "v1/" + labels[i]
+		}
 		rec.Case(reasons <= 1, fmt.Sprintf("%+v|%+v|%d|%s|%x", s, r, cur, label, bodyBytesV1(m)), labels...)
 		if rec.WantSample() {
 			rec.Sample(map[string]any{"token": fmt.Sprintf("%+v", s), "req": fmt.Sprintf("%+v", r), "epoch": cur, "mutation": label, "want_accept": want})
